@@ -2,11 +2,14 @@ package checks
 
 import (
 	"bytes"
+	"encoding/json"
 	"fmt"
 	"math"
+	"net/http"
 	"os"
 	"path/filepath"
 	"sort"
+	"strings"
 	"time"
 
 	"github.com/nats-io/nats.go"
@@ -30,6 +33,14 @@ func identOf(p data.Point) ident {
 
 // newestModel is the reference: per identity the delivered point with the greatest timestamp.
 type newestModel map[ident]data.Point
+
+func (m newestModel) points() data.Points {
+	var out data.Points
+	for _, p := range m {
+		out = append(out, p)
+	}
+	return out
+}
 
 func (m newestModel) deliver(p data.Point) {
 	id := identOf(p)
@@ -196,15 +207,33 @@ func genDelivery(r *vlib.R, set data.Points) []data.Points {
 	return batches
 }
 
+const c01Token = "c01-instance-token"
+
+// jsonable: the HTTP API speaks JSON, which has no spelling for infinities
+func jsonable(ps data.Points) bool {
+	for _, p := range ps {
+		if math.IsInf(p.Value, 0) || math.IsNaN(p.Value) || (p.Value == 0 && math.Signbit(p.Value)) {
+			return false // and the API's JSON omits zero values, so that -0 arrives as +0
+		}
+		if p.Type == data.PointTypeTombstone {
+			return false // the API does not list deleted placements
+		}
+	}
+	return true
+}
+
 func runC01(tier string, _ []string) int {
 	c := vlib.NewCtx("C01", tier, "exploration")
 	vlib.SetPortBlock(1)
-	c.SetRule("per case a PRNG point set (1-12 identities x 1-6 versions; strings from a hostile pool incl. colliding concatenations (ab,'')/(a,b), keys '' and '0' of one type, quotes, Unicode; values +-0, +-Inf, subnormals, >2^53; tombstones; origins; data; timestamps distinct per identity over the whole int64-ns range and clustered) is delivered k times to k fresh nodes (node points) and k fresh edges (edge points), each under its own permutation x partition into acknowledged batches x re-deliveries; after every batch the node is read back (deleted included) and compared with the newest-wins reference model; a third of the nodes get a second placement (mirror or move below a group) before one of the batches and are then also read through the other parent, through parent \"all\" and through the group's child list. Finally three runs of an instance on one data file: each run adds nodes and new identities, every node of every run is read back in every run. distinct = (node|edge, order kind, number of batches, set features: collision pair / ''+'0' pair / in-batch duplicates)")
+	c.SetRule("per case a PRNG point set (1-12 identities x 1-6 versions; strings from a hostile pool incl. colliding concatenations (ab,'')/(a,b), keys '' and '0' of one type, quotes, Unicode; values +-0, +-Inf, subnormals, >2^53; tombstones; origins; data; timestamps distinct per identity over the whole int64-ns range and clustered) is delivered k times to k fresh nodes (node points) and k fresh edges (edge points), each under its own permutation x partition into acknowledged batches x re-deliveries; after every batch the node is read back (deleted included) and compared with the newest-wins reference model; a third of the nodes get a second placement (mirror or move below a group) before one of the batches and are then also read through the other parent, through parent \"all\" and through the group's child list. One node in four receives its batches through the library's SendNodePoints / SendEdgePoints, one in eight (finite values only) through the HTTP API's POST /v1/nodes/<id>/points, which must store the same points with its own origin; nodes whose points JSON can carry are also read through GET /v1/nodes/<id>. Finally three runs of an instance on one data file: each run adds nodes and new identities, every node of every run is read back in every run. distinct = (node|edge, order kind, number of batches, set features: collision pair / ''+'0' pair / in-batch duplicates)")
 	c.Assume("equal timestamps on one identity, zero times and nodeType edge points are not generated (left open by the property); NaN belongs to C05")
 	nSets := c.N(60, 1500)
 	k := c.N(4, 8)
-	err := vlib.RunOnInstances(vlib.InstCfg{ID: "c01inst"}, nSets, 4, 35*time.Second, func(in *vlib.Instance, nc *nats.Conn, i int) {
+	err := vlib.RunOnInstances(vlib.InstCfg{ID: "c01inst", AuthToken: c01Token}, nSets, 4, 35*time.Second, func(in *vlib.Instance, nc *nats.Conn, i int) {
 		r := vlib.NewR(c.Seed, "c01", i)
+		httpBase := fmt.Sprintf("http://127.0.0.1:%d/v1/nodes/", in.Ports[1])
+		httpCl := &http.Client{Timeout: 30 * time.Second}
+		defer httpCl.CloseIdleConnections()
 		for _, edge := range []bool{false, true} {
 			set := genPointSet(r, edge)
 			feat := ""
@@ -297,7 +326,49 @@ func runC01(tier string, _ []string) int {
 					if edge {
 						subj = vlib.EdgeSubj(id, parent)
 					}
-					e, err := vlib.SendAck(nc, subj, batch)
+					// the batch travels one of three ways: as a bus request built by the harness, through the
+					// library's SendNodePoints / SendEdgePoints, or (node points) through the HTTP API, which
+					// stamps its own origin (none for the instance token) on every point
+					// (one way per node: a re-delivered point would otherwise arrive with two origins)
+					how := "bus"
+					switch {
+					case d%4 == 2 || (d%4 == 3 && edge):
+						how = "library"
+					case d%4 == 3 && jsonable(set) && jsonable(crafted):
+						how = "http"
+					}
+					wit["sent_through"] = how
+					var e string
+					var err error
+					switch how {
+					case "library":
+						cp := append(data.Points{}, batch...)
+						if edge {
+							err = client.SendEdgePoints(nc, id, parent, cp, true)
+						} else {
+							err = client.SendNodePoints(nc, id, cp, true)
+						}
+						if err != nil && (err == nats.ErrTimeout || strings.Contains(err.Error(), "timeout")) {
+							// the library waits one second; the same batch again, with the harness's patience
+							e, err = vlib.SendAck(nc, subj, batch)
+						} else if err != nil {
+							e, err = err.Error(), nil
+						}
+						c.Count("batches_through_the_library", 1)
+					case "http":
+						body, _ := json.Marshal(batch)
+						var res httpResp
+						res, err = doHTTP(httpCl, "POST", httpBase+id+"/points", c01Token, true, body, "application/json")
+						if err == nil && res.Status != 200 {
+							e = fmt.Sprintf("HTTP %d %s", res.Status, res.Body)
+						}
+						for k := range b {
+							b[k].Origin = ""
+						}
+						c.Count("batches_through_the_http_api", 1)
+					default:
+						e, err = vlib.SendAck(nc, subj, batch)
+					}
 					c.Eval(1)
 					sent = append(sent, witnessPoints(batch))
 					wit["batches"] = sent
@@ -315,6 +386,9 @@ func runC01(tier string, _ []string) int {
 						break
 					}
 					for _, p := range b {
+						if how == "http" {
+							p.Origin = ""
+						}
 						model.deliver(p)
 					}
 					nodes, err := client.GetNodes(nc, parent, id, "", true)
@@ -334,6 +408,30 @@ func runC01(tier string, _ []string) int {
 						break
 					}
 					c.Count("prefix_comparisons", 1)
+					if (how == "http" || bi == len(batches)-1) && !(moved && altPlaced) && jsonable(model.points()) {
+						// the same read through the HTTP API
+						res, herr := doHTTP(httpCl, "GET", httpBase+id, c01Token, true, []byte(parent), "")
+						var hn []data.NodeEdge
+						if herr == nil && res.Status == 200 {
+							herr = json.Unmarshal([]byte(res.Body), &hn)
+						}
+						if herr != nil || res.Status != 200 || len(hn) != 1 {
+							c.Violate("store:node-unreadable", fmt.Sprintf("node cannot be read through the HTTP API after a write: %v, status %d, %d nodes (%.200s)", herr, res.Status, len(hn), res.Body), wit)
+							ok = false
+							break
+						}
+						got := hn[0].Points
+						if edge {
+							got = hn[0].EdgePoints
+						}
+						if sig, what := storedDiff(model, got, true); sig != "" {
+							wit["read"] = witnessPoints(got)
+							c.Violate(sig, fmt.Sprintf("after batch %d of %d, read through the HTTP API: %s", bi+1, len(batches), what), wit)
+							ok = false
+							break
+						}
+						c.Count("reads_through_the_http_api", 1)
+					}
 					if altPlaced && edge && r.Chance(0.6) {
 						// the other placement gets edge points of the same identities with other timestamps:
 						// each edge keeps its own newest point per identity
